@@ -4,14 +4,16 @@ from rules import storefacts
 from rules.storefacts import field_of
 
 LEVEL_TEXT = (
-    "Static lock-span check: the only synchronisation between connections is the DashMap shard lock, so a store "
-    "operation is atomic only if every map write that depends on an earlier map read of the same key happens under "
-    "the same guard, or re-validates the observation under the lock (remove_if/alter predicate, entry API). R1 "
-    "enumerates, per path of every MemoryStore method (and of the default Cache::get instantiated at MemoryStore), "
-    "the (read, dependent write) pairs on one key and requires each to be tied; R2 requires the CAS comparison and "
-    "the replacement of MemoryStore::set to go through one guard; R3 requires the CAS counter to be a single atomic "
-    "read-modify-write. A fixture shows R1 can fire. Not decided: linearizability of whole histories, DashMap's own "
-    "correctness, memory ordering."
+    'Static lock-span check: the only synchronisation between connections is the DashMap shard lock, so a store '
+    'operation is atomic only if every map write that depends on an earlier map read of the same key happens under '
+    'the same guard, or re-validates the observation under the lock (remove_if/alter predicate with a version '
+    'witness, entry API). R1 enumerates, per path of every MemoryStore method (and of the get the store actually '
+    "runs: its own override or the trait's default instantiated at MemoryStore), the (read, dependent write) pairs on "
+    'one key and requires each to be tied; R2 requires the CAS comparison and the replacement of MemoryStore::set to '
+    'go through one guard; R3 requires token allocation to be a single atomic read-modify-write: on every path of '
+    'every store method the only operation on the cas counter is one fetch_add(1); R4 the policy layer performs at '
+    "most one mutation of the command's key per call. A fixture shows R1 can fire. Not decided: linearizability of "
+    "whole histories, DashMap's own correctness, memory ordering."
 )
 ASSUMPTIONS = [
     "DashMap 5.5.3 semantic table (analysis/storemodel.py): get/get_mut/entry hold the shard lock while their guard lives; remove_if/alter run the closure under the lock",
